@@ -18,6 +18,8 @@ package browse
 //@ extern invoke:(github.com/tmpim/casket/caskethttp/httpserver.Handler).ServeHTTP
 //@ extern (github.com/tmpim/casket/caskethttp/httpserver.Path).Matches
 //@   pure
+//@ extern (*net/url.URL).String
+//@   pure
 //@ func (Browse).ServeListing
 //@ extern invoke:(net/http.FileSystem).Open
 //@   ensures result1 == nil ==> result0 != nil
@@ -59,3 +61,10 @@ package browse
 //@ func (Browse).ServeArchive$2
 //@   requires bc != nil
 //@   at call invoke:(github.com/mholt/archiver/v3.Writer).Write assert [archive_sink_not_hidden] !bc.Fs.IsHidden(info)
+
+//@ unit setup_sweep props=C11 files=setup.go nilchecks=on nonnil_params=on dispenser_variants=on filter=`.`
+//@ // Safety sweep of this directive's setup code: index, slice, division, nil-map store, nil dereference, explicit panic,
+//@ // and termination of the loops driven by the token cursor. No functional contract; callees in the dispenser through their contracts.
+//@ use casketfile/contracts_verif.go:dispenser_api
+//@ use @verif/specs/stdlib.spec:stdlib
+//@ use @verif/specs/stdlib.spec:casket_api
